@@ -37,7 +37,7 @@ func VerifC11() {
 	mode := verif.Choose("context", 3)
 	switch mode {
 	case 0: // deadline that passes at some point
-		ctx, cancel = context.WithTimeout(bg, 30*time.Millisecond)
+		ctx, cancel = context.WithTimeout(bg, 150*time.Millisecond)
 	case 1: // already cancelled when the action starts
 		ctx, cancel = context.WithCancel(bg)
 		cancel()
@@ -76,7 +76,7 @@ func VerifC11Step() {
 	bg := context.Background()
 	err := spec.Compile(bg, core.InterpretersMap{"ecmascript": NewInterpreter()}, true)
 	verif.Assert("spec-compiles", err == nil)
-	ctx, cancel := context.WithTimeout(bg, 30*time.Millisecond)
+	ctx, cancel := context.WithTimeout(bg, 150*time.Millisecond)
 	defer cancel()
 	w, werr := spec.Walk(ctx, &core.State{NodeName: "start", Bs: match.Bindings{"a": 1.0}}, nil, &core.Control{Limit: 3}, nil)
 	verif.Assert("walk-returns", werr == nil && w != nil)
